@@ -237,17 +237,22 @@ func (c16) Run(c *wk.Case) {
 }
 
 // raw corpus: the map variable itself used as a value in an implicit-attribute program
-// (implicit text, explicit text, expected result on {x:10, y:3, l:[1,2,3]})
+// (implicit text, explicit text, expected result on {x:10, y:3, l:[1,2,3], f:v->v*2+1})
 func c16RawCorpus() [][3]string {
 	return [][3]string{
 		{"x+m.y", "m.x+m.y", "13"},
 		{"l.map(e->e*x+m.y).sum()", "m.l.map(e->e*m.x+m.y).sum()", "69"},
 		{"func g(a) a.x*y; g(m)", "func g(a) a.x*m.y; g(m)", "30"},
-		{"m.size()+x", "m.size()+m.x", "13"},
+		{"m.size()+x", "m.size()+m.x", "14"},
 		{"let q=m; q.x+y", "let q=m; q.x+m.y", "13"},
 		{"(p->p.y+x)(m)", "(p->p.y+m.x)(m)", "13"},
 		{"l.map(e->m.isAvail(\"x\") & x>e).string()", "m.l.map(e->m.isAvail(\"x\") & m.x>e).string()", "\"[true, true, true]\""},
-		{"m.map((k,v)->if k=\"l\" then 0 else v+y).x", "m.map((k,v)->if k=\"l\" then 0 else v+m.y).x", "13"},
+		{"m.map((k,v)->if k=\"l\" | k=\"f\" then 0 else v+y).x", "m.map((k,v)->if k=\"l\" | k=\"f\" then 0 else v+m.y).x", "13"},
+		// an attribute that holds a closure (f: v->v*2+1) is called
+		{"f(x)", "m.f(m.x)", "21"},
+		{"f(let t=x+1; t*y)", "m.f(let t=m.x+1; t*m.y)", "67"},
+		{"l.map(e->f(e)).sum()", "m.l.map(e->m.f(e)).sum()", "15"},
+		{"let h=f; h(y)+f(1)", "let h=m.f; h(m.y)+m.f(1)", "10"},
 	}
 }
 
@@ -255,6 +260,25 @@ func c16Raw(c *wk.Case, g *value.FunctionGenerator, it [3]string) {
 	mref := ref.NewMap()
 	mref.Keys = []string{"x", "y", "l"}
 	mref.Vals = []ref.Value{int64(10), int64(3), ref.NewList(int64(1), int64(2), int64(3))}
+	fclo := value.Closure(funcGen.Function[value.Value]{Func: func(st funcGen.Stack[value.Value], cs []value.Value) (value.Value, error) {
+		if v, ok := st.Get(0).(value.Int); ok {
+			return v*2 + 1, nil
+		}
+		return nil, fmt.Errorf("f needs an int")
+	}, Args: 1, IsPure: true})
+	withF := func(m value.Value, wrapped bool) value.Value {
+		mm, _ := m.ToMap()
+		put, err := mm.PutM(funcGen.NewEmptyStack[value.Value]().Init(mm, value.String("f"), fclo))
+		if err != nil {
+			panic(err)
+		}
+		var out value.Value = put
+		if wrapped {
+			// a host value that only acts as a map (ToMap): the exporter's formatting wrapper
+			out = export.Format{Value: out}
+		}
+		return out
+	}
 	var fImp funcGen.Func[value.Value]
 	var errI error
 	var panI any
@@ -271,17 +295,10 @@ func c16Raw(c *wk.Case, g *value.FunctionGenerator, it [3]string) {
 		c.Violation("implicit-explicit-generate-differs", fmt.Sprintf("[raw] GenerateWithMap(%q): %v %v; Generate(%q): %v %v", it[0], errI, panI, it[1], errE, panE), map[string]any{"implicit": it[0], "explicit": it[1]})
 		return
 	}
-	for kind := 0; kind < 5; kind++ {
-		va := bridge.Variant{LazyLists: kind%2 == 0, MapKind: kind}
-		wrap := func(m value.Value) value.Value {
-			if c.Index%7 == 3 {
-				// a host value that only acts as a map (ToMap), here the exporter's formatting wrapper
-				return export.Format{Value: m}
-			}
-			return m
-		}
-		gi := evalReal(fImp, []value.Value{wrap(bridge.RealMap(mref, va))})
-		ge := evalReal(fExp, []value.Value{wrap(bridge.RealMap(mref, va))})
+	for kind := 0; kind < 10; kind++ {
+		va := bridge.Variant{LazyLists: kind%2 == 0, MapKind: kind % 5}
+		gi := evalReal(fImp, []value.Value{withF(bridge.RealMap(mref, va), kind >= 5)})
+		ge := evalReal(fExp, []value.Value{withF(bridge.RealMap(mref, va), kind >= 5)})
 		si, se := "", ""
 		if gi.Err == nil {
 			si = bridge.Describe(gi.Val)
@@ -289,7 +306,12 @@ func c16Raw(c *wk.Case, g *value.FunctionGenerator, it [3]string) {
 		if ge.Err == nil {
 			se = bridge.Describe(ge.Val)
 		}
-		if gi.Err != nil || ge.Err != nil || si != se || si != it[2] {
+		bad := gi.Err != nil || ge.Err != nil || si != se || si != it[2]
+		if kind >= 5 {
+			// a wrapper has no methods of its own (m.size() fails in both forms): the two forms must agree
+			bad = (gi.Err == nil) != (ge.Err == nil) || si != se || (gi.Err == nil && si != it[2])
+		}
+		if bad {
 			c.Violation("implicit-explicit-outcome-differs", fmt.Sprintf("[raw, map kind %d] GenerateWithMap(%q) -> %s err=%v; Generate(%q) -> %s err=%v; expected %s", kind, it[0], si, gi.Err, it[1], se, ge.Err, it[2]),
 				map[string]any{"implicit": it[0], "explicit": it[1]})
 			return
